@@ -20,6 +20,10 @@
 //!   tw      n                               get_twiddles / get_inv_twiddles
 //!   rowmat  n cols seed blowup off N        RowMatrix::evaluate_polys_over::<N> (off = g: evaluate_polys::<N>)
 //!   colmat  n cols seed blowup off          ColMatrix::interpolate_columns / evaluate_columns_over
+//!   segbuf  n cols seed blowup off N fill sh  Segment::new_with_buffer for every segment, the caller's buffer pre-filled
+//!                                           with zeros (fill 0), a non-zero pattern (1) or the data of the previous segment /
+//!                                           of a segment of another matrix (2); columns of shape `sh`; then
+//!                                           RowMatrix::from_segments; cross-checked with build_segments
 //!   airdom  n cols seed lde deg N           StarkDomain::new(&air) for an AIR of trace length n whose single transition
 //!                                           constraint has degree `deg` (constraint-evaluation blowup = max(2, next_pow2(deg-1)),
 //!                                           in general SMALLER than the LDE blowup `lde`): every accessor of the domain, then
@@ -38,7 +42,7 @@ use winter_math::{
     ExtensibleField, FieldElement, StarkField,
 };
 use winter_prover::{
-    matrix::{ColMatrix, RowMatrix},
+    matrix::{build_segments, get_evaluation_offsets, ColMatrix, RowMatrix, Segment},
     StarkDomain,
 };
 
@@ -88,6 +92,8 @@ enum Shape {
     Alt,
     Top,
     Holes,
+    /// random with the single element k zeroed
+    ZeroAt(usize),
 }
 
 /// `n` elements of extension degree `d` as canonical coordinates, element-major (always n*d draws, then shaped).
@@ -135,6 +141,13 @@ fn gen_coords<B: Fld>(seed: u64, n: usize, d: usize, sh: Shape) -> Vec<u128> {
         Shape::Holes => {
             for i in 0..n * d {
                 if i / d % 3 == 1 {
+                    v[i] = 0;
+                }
+            }
+        },
+        Shape::ZeroAt(k) => {
+            for i in 0..n * d {
+                if i / d == k {
                     v[i] = 0;
                 }
             }
@@ -352,6 +365,7 @@ fn pdeg(s: &str) -> Option<Shape> {
         "b" => Some(Shape::Top),
         "i" => Some(Shape::Holes),
         _ if s.starts_with('m') => pu(&s[1..]).map(Shape::Mono),
+        _ if s.starts_with('h') => pu(&s[1..]).map(Shape::ZeroAt),
         _ if s.starts_with('s') => pu(&s[1..]).map(Shape::Single),
         _ => pu(s).map(Shape::Exact),
     }
@@ -417,10 +431,16 @@ fn exec_e<B: Fld + ExtensibleField<2> + ExtensibleField<3>, E: FieldElement<Base
                 let tw = twiddles::<B>(twn, false);
                 let mut p: Vec<E> = to_elems::<B, E>(&poly);
                 fft::evaluate_poly(&mut p, &tw);
-                coords_of::<B, E>(&p)
+                // the public single-threaded entry point works in place on the same kind of storage
+                let mut q: Vec<E> = to_elems::<B, E>(&poly);
+                fft::serial_fft(&mut q, &tw);
+                (coords_of::<B, E>(&p), coords_of::<B, E>(&q))
             });
-            if let Some(got) = r {
+            if let Some((got, got2)) = r {
                 o.out = summary(&got, d);
+                if got2 != got {
+                    o = o.fail(format!("{}.eval.serial_fft", f), "serial_fft differs from evaluate_poly");
+                }
                 o = check_evals::<B>(o, "eval", &poly, d, &got, n, 1, seed);
             }
             o
@@ -688,6 +708,22 @@ fn exec_e<B: Fld + ExtensibleField<2> + ExtensibleField<3>, E: FieldElement<Base
                 _ => bad(),
             }
         },
+        ["segbuf", n, cols, seed, blowup, off, w, fill, sh] => {
+            let (Some(n), Some(cols), Some(seed), Some(blowup), Some(off), Some(w), Some(fill), Some(sh)) =
+                (pu(n), pu(cols), p64(seed), pu(blowup), poff::<B>(off), pu(w), pu(fill), pdeg(sh))
+            else {
+                return bad();
+            };
+            match w {
+                1 => segbuf::<B, E, 1>(n, cols, seed, blowup, off, fill, sh),
+                2 => segbuf::<B, E, 2>(n, cols, seed, blowup, off, fill, sh),
+                3 => segbuf::<B, E, 3>(n, cols, seed, blowup, off, fill, sh),
+                4 => segbuf::<B, E, 4>(n, cols, seed, blowup, off, fill, sh),
+                8 => segbuf::<B, E, 8>(n, cols, seed, blowup, off, fill, sh),
+                16 => segbuf::<B, E, 16>(n, cols, seed, blowup, off, fill, sh),
+                _ => bad(),
+            }
+        },
         ["airdom", n, cols, seed, lde, deg, w] => {
             let (Some(n), Some(cols), Some(seed), Some(lde), Some(deg), Some(w)) =
                 (pu(n), pu(cols), p64(seed), pu(lde), pu(deg), pu(w))
@@ -865,6 +901,109 @@ fn rowmat<B: Fld, E: FieldElement<BaseField = B>, const W: usize>(
                     o = o.fail(
                         format!("{}.rowmat.value", f),
                         format!("cell (row {}, col {}) = {:?}, polynomial {} at off*w^{} = {:?}", r, c, &cells[r][c * d..(c + 1) * d], c, r, e),
+                    );
+                    break 'rows;
+                }
+            }
+        }
+    }
+    o
+}
+
+/// the non-zero pattern a caller's buffer is pre-filled with (fill mode 1)
+fn garbage_word(r: usize, s: usize, w: usize) -> u128 {
+    ((r * w + s + 1) as u128 * 2654435761) & 0xFFFF_FFFF_FFFF_FFFF
+}
+
+/// `Segment::new_with_buffer` for every segment of the matrix with caller-supplied storage, `RowMatrix::from_segments`,
+/// `build_segments`: every real cell must be the evaluation of its column at off·ω^row whatever the buffer held before
+fn segbuf<B: Fld, E: FieldElement<BaseField = B>, const W: usize>(
+    n: usize,
+    cols: usize,
+    seed: u64,
+    blowup: usize,
+    off: u128,
+    fill: usize,
+    sh: Shape,
+) -> Outcome {
+    let d = E::EXTENSION_DEGREE;
+    let f = B::NAME;
+    let m = B::MOD;
+    let mut o = Outcome::ok("");
+    let doc = cols == 0 || blowup < 2 || fill > 2 || bad_domain::<B>(n, n, blowup, off.max(1));
+    let polys: Vec<Vec<u128>> = (0..cols).map(|c| gen_coords::<B>(seed.wrapping_add(c as u64), n, d, sh)).collect();
+    let r = run(&mut o, format!("{}.segbuf.panic", f), doc, || {
+        let cm = ColMatrix::new(polys.iter().map(|c| to_elems::<B, E>(c)).collect::<Vec<Vec<E>>>());
+        let offsets = get_evaluation_offsets::<E>(n, blowup, B::from_word(off));
+        let tw = fft::get_twiddles::<B>(n);
+        let base_cols = cm.num_base_cols();
+        let nseg = (base_cols + W - 1) / W;
+        // storage "left over from a previous, different call": a segment of another matrix
+        let other = ColMatrix::new(
+            (0..cols)
+                .map(|c| to_elems::<B, E>(&gen_coords::<B>(seed.wrapping_add(7777 + c as u64), n, d, Shape::Rand)))
+                .collect::<Vec<Vec<E>>>(),
+        );
+        let mut prev: Vec<[B; W]> = Segment::<B, W>::new(&other, 0, &offsets, &tw).into_data();
+        let mut segs: Vec<Segment<B, W>> = vec![];
+        for i in 0..nseg {
+            let buffer: Vec<[B; W]> = match fill {
+                0 => vec![[B::ZERO; W]; n * blowup],
+                1 => (0..n * blowup).map(|r| core::array::from_fn(|s| B::from_word(garbage_word(r, s, W)))).collect(),
+                _ => prev.clone(),
+            };
+            let seg = Segment::<B, W>::new_with_buffer(buffer, &cm, i * W, &offsets, &tw);
+            prev = seg.clone().into_data();
+            segs.push(seg);
+        }
+        let seg_data: Vec<Vec<Vec<u128>>> =
+            segs.iter().map(|sg| sg.iter().map(|row| row.iter().map(|x| x.canon()).collect()).collect()).collect();
+        let built: Vec<Vec<Vec<u128>>> = build_segments::<E, W>(&cm, &tw, &offsets)
+            .iter()
+            .map(|sg| sg.iter().map(|row| row.iter().map(|x| x.canon()).collect()).collect())
+            .collect();
+        let rm: RowMatrix<E> = RowMatrix::from_segments(segs, base_cols);
+        let cells: Vec<Vec<u128>> = (0..rm.num_rows()).map(|r| coords_of::<B, E>(rm.row(r))).collect();
+        let data: Vec<u128> = rm.data().iter().map(|x| x.canon()).collect();
+        (rm.num_rows(), rm.num_cols(), cells, data, seg_data, built)
+    });
+    if let Some((rows, ncols, cells, data, seg_data, built)) = r {
+        let flat: Vec<u128> = cells.iter().flatten().cloned().collect();
+        o.out = format!("{} {} {} {}", rows, ncols, summary(&flat, d), summary(&data, 1));
+        if rows != n * blowup || ncols != cols {
+            return o.fail(format!("{}.segbuf.shape", f), format!("{}x{} expected {}x{}", rows, ncols, n * blowup, cols));
+        }
+        let base_cols = cols * d;
+        // the segments themselves, and build_segments, agree with the matrix on every real column
+        'cross: for r in 0..rows {
+            for bc in 0..base_cols {
+                let want = cells[r][bc];
+                if seg_data[bc / W][r][bc % W] != want {
+                    o = o.fail(format!("{}.segbuf.segment", f), format!("segment {} row {} slot {} differs from the matrix cell", bc / W, r, bc % W));
+                    break 'cross;
+                }
+                if built[bc / W][r][bc % W] != want {
+                    o = o.fail(
+                        format!("{}.segbuf.build_segments", f),
+                        format!("new_with_buffer (fill {}) and build_segments differ at row {} base column {}", fill, r, bc),
+                    );
+                    break 'cross;
+                }
+            }
+        }
+        let w = match omega::<B>(rows) {
+            Ok(w) => w,
+            Err(e) => return o.fail(format!("{}.segbuf.domain", f), e),
+        };
+        let cost_per_row = n * cols * d;
+        'rows: for r in positions(rows, cost_per_row, budget::<B>(), seed) {
+            let x = mm(off % m, pm(w, r as u128, m), m);
+            for c in 0..cols {
+                let e = horner(&polys[c], d, x, m);
+                if e[..] != cells[r][c * d..(c + 1) * d] {
+                    o = o.fail(
+                        format!("{}.segbuf.value", f),
+                        format!("cell (row {}, col {}) = {:?}, polynomial {} at off*w^{} = {:?} (buffer fill mode {})", r, c, &cells[r][c * d..(c + 1) * d], c, r, e, fill),
                     );
                     break 'rows;
                 }
@@ -1249,6 +1388,48 @@ fn gen_all(rng: &mut Rng, tier: Tier, nrand: usize, emit: &mut dyn FnMut(String)
                     }
                     emit(format!("{} {} rowmat 8 {} {} 2 g {}", f, d, cols, rng.u64(), w));
                 }
+            }
+            // ---- caller-supplied storage: Segment::new_with_buffer over zeroed / garbage / reused buffers, base-column
+            // counts 1..2N+1 for every width, columns that are random, all-zero, sparse, padded with zero high
+            // coefficients, or have a single zero coefficient; blowups 2..16
+            {
+                let shapes = ["r", "z", "i", "2", "0", "h0", "h3", "h7", "m1", "5", "t", "s4"];
+                let mut j = 0usize;
+                for w in [1usize, 2, 3, 4, 8, 16] {
+                    let max_cols = (2 * w + 1 + d - 1) / d + 1;
+                    for cols in 1..=max_cols {
+                        for fill in 0..3usize {
+                            j += 1;
+                            // the library's own width and every partially filled shape in full; the others in rotation
+                            if w != 8 && !base && (j + fill) % 2 == 0 {
+                                continue;
+                            }
+                            let sh = shapes[j % shapes.len()];
+                            let blowup = [2usize, 4, 8, 16][j % 4];
+                            let off = if j % 3 == 0 { rnd_off(rng, *m) } else { "g".to_string() };
+                            emit(format!("{} {} segbuf 8 {} {} {} {} {} {} {}", f, d, cols, rng.u64(), blowup, off, w, fill, sh));
+                        }
+                    }
+                }
+                // a single zero coefficient at each position, zero / padded columns, in a partially filled segment of the
+                // library's width, garbage and reused storage
+                for fill in 1..3usize {
+                    for k in 0..8usize {
+                        emit(format!("{} {} segbuf 8 3 {} 4 g 8 {} h{}", f, d, rng.u64(), fill, k));
+                    }
+                    for sh in ["z", "0", "3", "i", "r"] {
+                        emit(format!("{} {} segbuf 16 3 {} 4 g 8 {} {}", f, d, rng.u64(), fill, sh));
+                        emit(format!("{} {} segbuf 8 11 {} 2 g 8 {} {}", f, d, rng.u64(), fill, sh));
+                    }
+                }
+                if base {
+                    emit(format!("{} {} segbuf 256 9 {} 8 g 8 2 3", f, d, rng.u64()));
+                    emit(format!("{} {} segbuf 512 3 {} 2 g 8 1 100", f, d, rng.u64()));
+                }
+                // malformed: buffer-independent preconditions
+                emit(format!("{} {} segbuf 8 0 {} 2 g 8 1 r", f, d, rng.u64()));
+                emit(format!("{} {} segbuf 8 3 {} 1 g 8 1 r", f, d, rng.u64()));
+                emit(format!("{} {} segbuf 6 3 {} 2 g 8 1 r", f, d, rng.u64()));
             }
             // ---- LDE domain size on both sides of 1024 (segments' MIN_CONCURRENT_SIZE) with a ragged last segment
             if base || d == 2 {
